@@ -24,6 +24,7 @@ ASSUMPTIONS = [
 TIMEOUT = {'quick': 1500, 'thorough': 10800}
 WORKERS = 10
 ISAR_MECH = 'isar-expression-text-reevaluated-by-the-host-language'
+SIBLING_MECH = 'isar-enumerator-naming-a-sibling-is-pasted-into-the-python-enum-where-the-name-is-not-bound'
 
 
 def shards(ctx):
@@ -74,14 +75,15 @@ def build_schema(rng, fmt, redundant, neutral=True):
     items = []
     sch = S.Schema()
 
-    def mk(role, lo=None, hi=None, depth=None):
+    def mk(role, lo=None, hi=None, depth=None, more=()):
         for _ in range(80):
-            t, v = E.gen_valid(rng, depth if depth is not None else rng.randint(1, 5), names, lo, hi, **kw)
+            t, v = E.gen_valid(rng, depth if depth is not None else rng.randint(1, 5), names + list(more), lo, hi, **kw)
             if isar and _has_div(t):
                 continue
-            if isar and neutral and (E.host_value_32bit(t) != v or E.max_intermediate(t) >= (1 << 31)):
+            txt = E.render(t, rng, redundant)
+            if isar and neutral and (E.host_value_32bit(t, txt) != v or E.max_intermediate(t) >= (1 << 31)):
                 continue
-            return t, v, E.render(t, rng, redundant)
+            return t, v, txt
         t = E.Lit(lo or 1, 10)
         return t, t.value, t.text()
 
@@ -113,9 +115,14 @@ def build_schema(rng, fmt, redundant, neutral=True):
     used = set()
     for i in range(4):
         for _ in range(30):
-            t, v, txt = mk('enum', 0, (1 << 32) - 1)
+            # an enumerator may be built on the earlier enumerators of its own enum (in both front-ends)
+            t, v, txt = mk('enum', 0, (1 << 32) - 1, more=[(m[0], m[1]) for m in members])
             if v not in used:
                 break
+        if isar and not neutral and i == 2 and members[1][1] + 1 not in used:
+            # canary of the recorded finding: an enumerator built on its sibling
+            t = E.Bin('+', E.Name(members[1][0], members[1][1]), E.Lit(1, 10))
+            v, txt = members[1][1] + 1, '%s + 1' % members[1][0]
         used.add(v)
         name = ENUMERATOR_NAMES[i]
         members.append((name, v, txt))
@@ -135,6 +142,9 @@ def build_schema(rng, fmt, redundant, neutral=True):
         sch.add(S.Const(name, v, txt))
         items.append({'role': 'constant', 'name': name, 'tree': t, 'value': v, 'text': txt})
         names.append((name, v))
+    if isar:
+        # array sizes and discriminators (defined after the enum) may name enumerators in isar, too
+        names.extend((m[0], m[1]) for m in members)
     if not isar:
         # 64-bit-scale constants: exact integer division is required from both evaluators
         for i in range(9, 13):
@@ -144,6 +154,15 @@ def build_schema(rng, fmt, redundant, neutral=True):
             sch.add(S.Const(name, v, txt))
             items.append({'role': 'big-constant', 'name': name, 'tree': t, 'value': v, 'text': txt})
             names_big.append((name, v))
+        # constants at and below the 32-bit signed range, down to the 64-bit one
+        for j, (val, txt) in enumerate(rng.sample([(-(1 << 31), '-(1 << 31)'), (-(1 << 31), '-0x80000000'),
+                                                   (-(1 << 31) - 1, '-2147483649'), (-(1 << 40), '-(1 << 40)'),
+                                                   (-(1 << 63) + 1, '-(1 << 63) + 1'), (-(1 << 31) + 1, '-2147483647'),
+                                                   (-(1 << 62), '-(1 << 62)')], 3)):
+            name = 'KBN%d' % j
+            tree = E.Neg(E.Lit(-val, 10))
+            sch.add(S.Const(name, val, txt))
+            items.append({'role': 'big-constant', 'name': name, 'tree': tree, 'value': val, 'text': txt})
     smem = []
     for i, (tp, kind, hi) in enumerate([('u8', S.FIXED, 24), ('u16', S.FIXED, 12), ('u32', S.LIMITED, 9),
                                         ('byte', S.FIXED, 16), ('u64', S.FIXED, 5)]):
@@ -164,6 +183,16 @@ def build_schema(rng, fmt, redundant, neutral=True):
         items.append({'role': 'discriminator', 'name': 'UX.a%d' % i, 'arm': 'a%d' % i, 'tree': t, 'value': v, 'text': txt})
     sch.add(S.Union('UX', arms))
     return sch, items
+
+
+def names_in(t):
+    if isinstance(t, E.Name):
+        return {t.name}
+    if isinstance(t, E.Neg):
+        return names_in(t.a)
+    if isinstance(t, E.Bin):
+        return names_in(t.a) | names_in(t.b)
+    return set()
 
 
 def _has_div(t):
@@ -199,22 +228,27 @@ def model_lookup(nodes):
     return out
 
 
-def cpp_values(acc, wd, gen, items, stem):
-    """Compile a printer over the generated raw header; returns {name: int}."""
-    lines = ['#include <cstdio>', '#include "%s.pp.hpp"' % stem, 'int main()', '{']
+def cpp_values(acc, wd, gen, items, stem, full=False):
+    """Compile a printer over the generated raw header (or, full=True, the header of the full codec: constants and
+    enumerators only); returns {name: int}."""
+    lines = ['#include <cstdio>', '#include "%s.%s.hpp"' % (stem, 'ppf' if full else 'pp'), 'int main()', '{']
+    if full:
+        lines.insert(2, 'using namespace prophy::generated;')
     for it in items:
         if it['role'] in ('constant', 'enumerator', 'big-constant'):
             lines.append('    printf("%s %%lld\\n", (long long)%s);' % (it['name'], it['name']))
+        elif full:
+            continue
         elif it['role'] == 'array-size':
             lines.append('    printf("%s %%lld\\n", (long long)(sizeof(((SX*)0)->%s) / sizeof(((SX*)0)->%s[0])));'
                          % (it['name'], it['member'], it['member']))
         else:
             lines.append('    printf("%s %%lld\\n", (long long)UX::discriminator_%s);' % (it['name'], it['arm']))
     lines += ['    return 0;', '}']
-    src = os.path.join(wd, 'vals_%s.cpp' % stem)
+    src = os.path.join(wd, 'vals_%s%s.cpp' % (stem, '_full' if full else ''))
     with open(src, 'w') as f:
         f.write('\n'.join(lines) + '\n')
-    binary = os.path.join(wd, 'vals_%s' % stem)
+    binary = os.path.join(wd, 'vals_%s%s' % (stem, '_full' if full else ''))
     cppdrv.compile_cpp([src], binary, [gen], sanitize=False, cxx='g++')
     p = subprocess.run([binary], stdout=subprocess.PIPE, timeout=60)
     out = {}
@@ -233,7 +267,7 @@ def run_shard(spec):
         for round_ in range(6):
             neutral = round_ != 5
             sch, items = build_schema(rng, fmt, spec['redundant'], neutral)
-            sensitive = fmt == 'isar' and any(E.host_value_32bit(i['tree']) != i['value'] or
+            sensitive = fmt == 'isar' and any(E.host_value_32bit(i['tree'], i['text']) != i['value'] or
                                               E.max_intermediate(i['tree']) >= (1 << 31) for i in items)
             d = os.path.join(wd, 'r%d' % round_)
             pkg = 'c14p%d_%d' % (os.getpid(), round_)
@@ -264,7 +298,8 @@ def run_shard(spec):
                 with open(os.path.join(d, rel), 'w') as f:
                     f.write(t)
             extra_inputs = [os.path.join(d, rel) for rel in files]
-            exc, _, nodes = pc.run_main(['--quiet'] + args + ['--python_out', pkgdir, '--cpp_out', d] + extra_inputs + [main])
+            exc, _, nodes = pc.run_main(['--quiet'] + args + ['--python_out', pkgdir, '--cpp_out', d, '--cpp_full_out', d] +
+                                        extra_inputs + [main])
 
             def witness(it=None, **kw):
                 wit = {'format': fmt, 'seed': spec['seed'], 'split': spec['split'], 'redundant': spec['redundant'],
@@ -289,13 +324,21 @@ def run_shard(spec):
                 with pyrt.quiet():
                     mod = importlib.import_module(pkg + '.sch')
             except BaseException as e:  # noqa
-                acc.violation(PROP, ISAR_MECH if sensitive else 'python-module-does-not-import:%s' % type(e).__name__,
-                              witness(error='%s: %s' % (type(e).__name__, str(e)[:400])))
+                mech = ISAR_MECH if sensitive else 'python-module-does-not-import:%s' % type(e).__name__
+                if (fmt == 'isar' and isinstance(e, NameError) and any(("'%s'" % n) in str(e) for n in ENUMERATOR_NAMES) and
+                        any(i['role'] == 'enumerator' and names_in(i['tree']) & set(ENUMERATOR_NAMES) for i in items)):
+                    mech = SIBLING_MECH
+                acc.violation(PROP, mech, witness(error='%s: %s' % (type(e).__name__, str(e)[:400])))
             cppv = None
             try:
                 cppv = cpp_values(acc, wd, d, items, 'sch')
             except cppdrv.BuildFailed as e:
                 acc.violation(PROP, ISAR_MECH if sensitive else 'generated-cpp-does-not-compile', witness(error=str(e)[-800:]))
+            cppf = None
+            try:
+                cppf = cpp_values(acc, wd, d, items, 'sch', full=True)
+            except cppdrv.BuildFailed as e:
+                acc.violation(PROP, ISAR_MECH if sensitive else 'generated-cpp-full-does-not-compile', witness(error=str(e)[-800:]))
             import prophyc.calc as calc
             known = dict((n, v) for n, v in [(i['name'], i['value']) for i in items
                                              if i['role'] in ('constant', 'enumerator', 'big-constant')])
@@ -307,7 +350,7 @@ def run_shard(spec):
                 for o in sig:
                     acc.feature('op:' + o)
                 exp = it['value']
-                hostv = E.python_precedence_value(it['tree'])
+                hostv = E.python_precedence_value(it['tree'], it['text'])
                 host_differs = fmt == 'isar' and hostv != exp
 
                 def bad(where, got):
@@ -378,6 +421,10 @@ def run_shard(spec):
                     if cppv[it['name']] != exp:
                         bad('cpp', cppv[it['name']])
                     acc.count('cpp_values_checked')
+                if cppf is not None and it['name'] in cppf:
+                    if cppf[it['name']] != exp:
+                        bad('cpp-full', cppf[it['name']])
+                    acc.count('cpp_full_values_checked')
             # (e) layout
             w = W.Wire(sch)
             node = ml.get(('struct', 'SX'))
